@@ -142,10 +142,29 @@ def run_case(item):
     res = o.check_case(case, ex)
     res['idx'] = idx
     res['trace'] = h.hexdigest()[:20]
+    res.setdefault('stats', {})['sim_time_s'] = sim_span(case.get('scenario', {}).get('history', []))
     res['avoid_on'] = bool(avoid)
     if res['violations'] or idx < 3:
         res['case'] = case
     return res
+
+
+def sim_span(history):
+    """Simulated time covered by a scenario: span of the clock values its ops set (seconds)."""
+    import datetime as _dt
+    ts = []
+
+    def walk(ops):
+        for op in ops:
+            if op.get('now'):
+                try:
+                    ts.append(_dt.datetime.fromisoformat(op['now']))
+                except ValueError:
+                    pass
+            if op.get('op') == 'hc_block':
+                walk(op.get('body', []))
+    walk(history)
+    return (max(ts) - min(ts)).total_seconds() if len(ts) > 1 else 0.0
 
 
 def check_only(item):
